@@ -92,6 +92,15 @@ def run_shard(desc, ctx):
                   np.unique(np.r_[keep, edge]).astype(np.int32), slice(None), slice(int(b_[1]) - 3 if len(parts) > 1 else 5, None), -1, int(b_[-2])]
     run_case({'backend': 'flat' if sh % 8 < 6 else 'npy', 'ext': L.FLAT_EXT[sh % 4], 'offset': OFFSETS[sh % 4], 'dtype': DTYPES[sh % 6], 'nc': 2,
               'parts': parts if sh % 8 < 6 else [n_], 'items': long_items, 'cols': [None, [1, 0]]}, ctx)
+    # recordings made of many files (12 x 3 rows, 40 x 2 rows): every pair of rows as an index list, plus random longer lists
+    if sh % 4 in (1, 3):
+        parts = [[3] * 12, [2] * 40][sh % 4 // 2]
+        n_ = sum(parts)
+        rngm = np.random.default_rng([desc['seed'], sh, 202])
+        pairs = [[i, j] for i in range(n_) for j in range(i + 1, n_) if (i * 31 + j) % 16 == sh]
+        longer = [np.sort(rngm.permutation(n_)[:int(rngm.integers(3, 9))]).tolist() for _ in range(150)]
+        run_case({'backend': 'flat', 'ext': L.FLAT_EXT[sh % 4], 'offset': OFFSETS[sh % 4], 'dtype': DTYPES[(sh + 1) % 6], 'nc': 2,
+                  'parts': parts, 'items': pairs + longer + [slice(None), slice(5, n_ - 4), -1], 'cols': [None]}, ctx)
     if desc['tier'] == 'thorough':
         rng = np.random.default_rng([desc['seed'], desc['shard'], 1])
         for r in range(40):
@@ -278,6 +287,7 @@ def _run(case, ctx, d):
     multi = len(bounds) > 2
     inner = set(bounds[1:-1]) | set(b - 1 for b in bounds[1:-1])
     sampled = False
+    held = []          # results the caller keeps: they must still be right after all the later reads
     for it in items:
         if isinstance(it, slice):
             rows = range(*it.indices(n))
@@ -327,6 +337,14 @@ def _run(case, ctx, d):
             if dd:
                 ctx.violation('read_mismatch', sub, 'reader[%r%s]: %s' % (
                     it, '' if cols is None else ', %r' % (cols,), dd), f2)
+            elif len(held) < 60 and isinstance(rr.value, np.ndarray):
+                held.append((it, cols, rr.value, exp))
+    for it, cols, val, exp in held:
+        ctx.count(1, cell=(be, lay['dtype'], 'held_results'))
+        if same(val, exp):
+            ctx.violation('read_mismatch', dict(lay, items=[it], cols=[cols]), 'the result of reader[%r%s], correct when returned, changed during later reads: %s' % (
+                it, '' if cols is None else ', %r' % (cols,), same(val, exp)), dict(feats, held_result=True))
+            break
     # a channel selection on top of the lazy whole-recording channel selection: reader[:, c1][rows, c2]
     if lay['cols'] == 'all':
         sels = [c for c in cols_l if c is not None] + [slice(1, None)]
